@@ -245,14 +245,22 @@ def _run_hyp(sub, ctx, budget):
     box = {}
     limit_shrinking(ctx)
 
+    sticky = {}
+
     @seed(derive_seed(ctx.seed, ctx.prop, sub.name, ctx.shard))
     @_hyp_settings(budget)
     @given(strat)
     def test(case):
+        # a verdict once reached for a case stands: code under test that keeps state between calls can pass the
+        # very same case on re-execution, which Hypothesis would report as flakiness instead of the violation
+        key = digest(case)
+        if key in sticky:
+            raise sticky[key]
         try:
             guarded(sub.body, ctx, case)
         except Violation as v:
             box["v"] = v
+            sticky[key] = v
             raise
 
     try:
@@ -260,6 +268,14 @@ def _run_hyp(sub, ctx, budget):
     except Violation as v:
         v = box.get("v", v)
         return dict(msg=v.msg, case=v.case, detail=v.detail)
+    except Exception as e:
+        import hypothesis.errors as herr
+        if isinstance(e, herr.Flaky) and "v" in box:
+            # inconsistent behaviour of the code under test across executions: the observed violation is real
+            v = box["v"]
+            return dict(msg=v.msg + " [not reproduced on re-execution: behaviour depends on earlier calls]",
+                        case=v.case, detail=v.detail)
+        raise
     return None
 
 
@@ -286,6 +302,19 @@ def _run_machine(sub, ctx, budget):
     except Violation as v:
         v = box.get("v", v)
         return dict(msg=v.msg, case=v.case, detail=v.detail)
+    except Exception as e:
+        import hypothesis.errors as herr
+        last = None
+        for modname in ("twv.props.c08", "twv.progmachine"):
+            m = sys.modules.get(modname)
+            for cname in ("DomainSession", "ProgramSession"):
+                cls = getattr(m, cname, None) if m else None
+                if cls is not None and getattr(cls, "last_violation", None) is not None:
+                    last = cls.last_violation
+        if isinstance(e, herr.Flaky) and last is not None:
+            return dict(msg=last.msg + " [not reproduced on re-execution: behaviour depends on earlier calls]",
+                        case=last.case, detail=last.detail)
+        raise
     return None
 
 
